@@ -143,7 +143,7 @@ impl Check for C06 {
     }
     fn required_probes(&self) -> Vec<&'static str> { vec!["knot_runs", "link_runs", "crossing_change_checked"] }
     fn max_steps(&self) -> usize { 50_000_000 }
-    fn runs(&self, tier: &str) -> u64 { if tier == "quick" { 1_500 } else { 400_000 } }
+    fn runs(&self, tier: &str) -> u64 { if tier == "quick" { 6_000 } else { 500_000 } }
     fn gen_case(&self, rng: &mut Rng, _idx: u64, tier: &str) -> Value {
         let max_x = if tier == "quick" { 8 } else { 10 };
         // knots from the table (so that runs of the same knot meet in the cross-run check)
@@ -200,6 +200,7 @@ impl Check for C06 {
         }
         rep
     }
+    fn has_cross_check(&self) -> bool { true }
     fn cross_check(&self, runs: &[(u64, Value, RunReport)]) -> Vec<(u64, Violation)> {
         // ss is a knot invariant: constant per (knot, c) over all diagrams / paths, negated by mirroring
         let mut seen: BTreeMap<(String, String), (u64, i32)> = BTreeMap::new();
